@@ -15,6 +15,7 @@ def dispatch (line : String) : String :=
   | "C17t" :: args => VtModel.TileJson.handleT args
   | "C17u" :: args => VtModel.TileJson.handleU args
   | "C17m" :: args => VtModel.TileJson.handleM args
+  | "C17n" :: args => VtModel.Ndjson.handleN args
   | "C18" :: args => VtModel.Vpl.handle args
   | "C18r" :: args => VtModel.Vpl.handleRender args
   | "C06" :: args => VtModel.Converter.handle args
